@@ -1,7 +1,7 @@
 (* Witnesses for the known findings of C01 (known_findings/C01.json): the full statement is false on these inputs.
    Each is the negation of the conclusion of a C01 theorem on a concrete typed input; computed by vm_compute. *)
 Require Import PonyV.Base.PyBase PonyV.Model.C01Expr PonyV.Model.C01Sql PonyV.Model.C01Translate PonyV.Model.C01Safe
-               PonyV.Model.C01Eqb PonyV.Model.C01Query PonyV.Model.C01Join PonyV.Model.C01Coll PonyV.Model.C01Aggr.
+               PonyV.Model.C01Eqb PonyV.Model.C01Query PonyV.Model.C01Join PonyV.Model.C01Aggr.
 
 Definition fa := mkattr 1 TInt true.
 Definition fb := mkattr 2 TInt true.
@@ -101,24 +101,6 @@ Theorem C01_refuted_pk_of_none_reference_is_marked_not_nullable :
       sql_join_rows d JLeft 0 false conds q (fun _ => PNone) jdb1 = [].
 Proof. cbv zeta. repeat split; try reflexivity. intros d H; destruct d; try discriminate H; do 2 eexists; repeat split; reflexivity. Qed.
 Print Assumptions C01_refuted_pk_of_none_reference_is_marked_not_nullable.
-
-(* ------------------------------------------------------------------------------------------- to-many collections *)
-(* select(g.id for g in G if not (g.level in (m.a for m in g.members))) on a group whose only member has a = None, level = 3:
-   `g.level not in (...)` gets `AND m.a IS NOT NULL` in the subquery and keeps the group (3 is not among the values), but the
-   negation of `in` only flips IN to NOT IN - `3 NOT IN (NULL)` is NULL and the group is dropped *)
-Theorem C01_refuted_not_over_in_collection_lacks_null_check :
-  let a := mkattr 1 TInt true in let level := mkattr 14 TInt true in
-  let g : C01Join.row := row_of [(0, PInt 1); (1, PInt 0); (4, PInt 3)]%nat in
-  let m : C01Join.row := row_of [(0, PInt 1); (8, PInt 1); (3, PInt 0); (5, PStr [97%Z]); (7, PBool true)]%nat in
-  let db := mkjdb [m] [g] [] in
-  let written_not_in := AIn true false (EAttr level) a (SGen None) in
-  let written_not_over_in := AIn true true (EAttr level) a (SGen None) in
-  holds (fun _ => PNone) db g written_not_in = true /\ holds (fun _ => PNone) db g written_not_over_in = true /\
-  forall d, modelled d = true ->
-    exists c1 c2, tr_atom d written_not_in = Some c1 /\ tr_atom d written_not_over_in = Some c2 /\
-      xtruth d (fun _ => PNone) db g c1 = true /\ xtruth d (fun _ => PNone) db g c2 = false.
-Proof. cbv zeta. repeat split; try reflexivity. intros d H; destruct d; try discriminate H; do 2 eexists; repeat split; reflexivity. Qed.
-Print Assumptions C01_refuted_not_over_in_collection_lacks_null_check.
 
 (* ------------------------------------------------------------------------------------------- aggregates *)
 (* select(sum(p.f) for p in P) over three rows with f = True: the database returns 3, but the result type of the aggregate is the
